@@ -235,6 +235,9 @@ def probe_unprintable_arguments(ctx):
               "schema.float.min(H)", "schema.float(H)", "schema.float.precision(H)", "schema.float(1.5).min(H)", "schema.float.max(-H)",
               "schema.str.len(H).len(1)", "schema.str('a').len(H)", "schema.str('a').len(H, ...)", "schema.str('a').len(..., -H)",
               "schema.str(H)", "schema.str.alphabet(H)", "schema.str.regex(H)", "schema.str.contains(H)", "schema.str.len(1, H).len(2)",
+              "schema.str('abc').len(..., H).alphabet('x')", "schema.str('abc').len(..., H).contains('x')", "schema.str('abc').len(1, H).contains('x')",
+              "schema.str('abc').len(3, H).alphabet('abc').contains('z')", "schema.str.regex('(?a)(?u)x')", "schema.str('x').regex('(?L)x')",
+              "schema.str.regex('(?a)(?u)x').len(1)", "schema.str.len(1).regex('(?a)(?u)x')",
               "schema.list([schema.int(H)]).len(3)", "schema.list([schema.int(H)])([])", "schema.list(H)", "schema.list([H])",
               "schema.list([schema.int]).len(H)", "schema.list(schema.int(H))(schema.int)", "schema.list(deep)",
               "schema.any(schema.int(H))(schema.int)", "schema.any(H)", "schema.any(schema.int, H)", "schema.int(H) | H",
